@@ -123,7 +123,7 @@ theorem vcmds_single {f g : Nat} {ed ed1 s : Ed} {ln : Bytes} {ret r : Int}
 open Neatvi.Lemmas.C06b in
 /-- the same for a round of the `ex()` loop -/
 theorem vstep_single {ed ed1 s : Ed} {ln : Bytes} {rest0 : List Bytes} {r : Int} (hin : ed.input = ln :: rest0)
-    (hone : runOne 38 (stepStart ed rest0) (parse1 ln) 0 = some ((r, ed1), []))
+    (hone : runOne (FUEL - 2) (stepStart ed rest0) (parse1 ln) 0 = some ((r, ed1), []))
     (hat : ∀ a h, (parse1 ln).idx = some (a, h) → h ≠ "ec_at" ∧ h ≠ "ec_glob" ∧ h ≠ "ec_edit")
     (hv : VStep ed s) : s = ed1 := by
   cases hv with
@@ -159,14 +159,15 @@ theorem wEdIn_visits (s : Ed) (hv : VStep wEdIn s) : s.len = 5 := by
       cases he with
       | cmds _ hcm =>
         have hp : (parse1 [36, 114, 32, 103]).idx = some ([114], "ec_read") := by decide +kernel
-        have hev : ((runOne 38 (stepStart wEdIn []) (parse1 [36, 114, 32, 103]) 0).map (fun x => (x.1.2.len, x.2))) =
+        have hev : ((runOne (FUEL - 2) (stepStart wEdIn []) (parse1 [36, 114, 32, 103]) 0).map (fun x => (x.1.2.len, x.2))) =
             some (5, []) := by
+          rw [show FUEL - 2 = (FUEL - 3) + 1 from rfl]
           unfold runOne
           rw [hp]
           simp only [abbrOf]
           rw [runCmd]
           decide +kernel
-        cases hone : runOne 38 (stepStart wEdIn []) (parse1 [36, 114, 32, 103]) 0 with
+        cases hone : runOne (FUEL - 2) (stepStart wEdIn []) (parse1 [36, 114, 32, 103]) 0 with
         | none => rw [hone] at hev; cases hev
         | some x =>
           obtain ⟨⟨r, ed1⟩, rest⟩ := x
@@ -180,14 +181,14 @@ open Neatvi.Lemmas.C06b in
 /-- one round of the `ex()` loop on a line whose first command leaves nothing behind -/
 theorem exStep_single {ed ed1 : Ed} {ln : Bytes} {rest0 : List Bytes} {r : Int} (hin : ed.input = ln :: rest0)
     (hlen : ln.length < Gen.EXLEN) (hne : ln.isEmpty = false)
-    (hone : runOne 38 (stepStart ed rest0) (parse1 ln) 0 = some ((r, ed1), [])) :
+    (hone : runOne (FUEL - 2) (stepStart ed rest0) (parse1 ln) 0 = some ((r, ed1), [])) :
     exStep ed = some (r, { (ed1.modifiedAt 0).2 with regs := (ed1.modifiedAt 0).2.regs.put 58 ln 1, faults := [] }) := by
   unfold exStep
   rw [hin]
   simp only []
   have hc : exCommand FUEL (stepStart ed rest0) ln = some (r, (ed1.modifiedAt 0).2) := by
-    show exCommand (39 + 1) _ _ = _
-    rw [exCommand, Props.C06b.exExec_short 38 _ _ hlen, cmds_succ, if_neg (by simp [hne]), hone]
+    show exCommand ((FUEL - 2) + 1 + 1) _ _ = _
+    rw [exCommand, Props.C06b.exExec_short (FUEL - 2) _ _ hlen, cmds_succ, if_neg (by simp [hne]), hone]
     simp only [cmds_nil]
   have hc' : exCommand FUEL { ed with input := rest0, out := [], msg := [], calls := 0, fired := 0 } ln =
       some (r, (ed1.modifiedAt 0).2) := hc
@@ -197,14 +198,15 @@ open Neatvi.Lemmas.C06b in
 /-- the round on the line `$r g` at the witness state, evaluated: it succeeds, the buffer has five lines then -/
 theorem wEdIn_step : ∃ r ed', exStep wEdIn = some (r, ed') ∧ ed'.len = 5 ∧ ed'.input = [] := by
   have hp : (parse1 [36, 114, 32, 103]).idx = some ([114], "ec_read") := by decide +kernel
-  have hev : ((runOne 38 (stepStart wEdIn []) (parse1 [36, 114, 32, 103]) 0).map
+  have hev : ((runOne (FUEL - 2) (stepStart wEdIn []) (parse1 [36, 114, 32, 103]) 0).map
       (fun x => (x.1.2.len, x.1.2.input, x.2))) = some (5, [], []) := by
+    rw [show FUEL - 2 = (FUEL - 3) + 1 from rfl]
     unfold runOne
     rw [hp]
     simp only [abbrOf]
     rw [runCmd]
     decide +kernel
-  cases hone : runOne 38 (stepStart wEdIn []) (parse1 [36, 114, 32, 103]) 0 with
+  cases hone : runOne (FUEL - 2) (stepStart wEdIn []) (parse1 [36, 114, 32, 103]) 0 with
   | none => rw [hone] at hev; cases hev
   | some x =>
     obtain ⟨⟨r, ed1⟩, rest⟩ := x
@@ -224,7 +226,7 @@ def wEdStart : Ed := { files := [⟨[102], [97, 10, 98, 10, 99, 10], 5⟩] }
 
 theorem wEdStart_init : ∃ rc ed1, exInit wEdStart [[102]] = some (rc, ed1) ∧ ed1.len = 3 ∧ ed1.xrow = 0 := by
   have hev : (exInit wEdStart [[102]]).map (fun x => (x.2.len, x.2.xrow)) = some (3, 0) := by
-    rw [exInit, show FUEL = 39 + 1 from rfl, ecEdit]; decide +kernel
+    rw [exInit, show ecEdit FUEL = ecEdit ((FUEL - 1) + 1) from rfl, ecEdit]; decide +kernel
   cases h : exInit wEdStart [[102]] with
   | none => rw [h] at hev; cases hev
   | some x =>
